@@ -289,7 +289,7 @@ def check_to_euler(ctx, cfg, F, H, M, done):
                         continue
                     k = const_value(ks[0])
                     eps = 2.0 ** -23 if const_width(ks[0]) == 4 else 2.0 ** -52
-                    if not (eps <= k <= 1024 * eps):
+                    if not (eps <= k <= 64 * eps):
                         bad = 'gimbal-lock threshold %g is %.3g times the epsilon of the scalar type (expected a small multiple: the documented 16 epsilon)' % (k, k / eps)
                         break
                 if bad:
@@ -386,7 +386,15 @@ def check_to_axis_angle(ctx, cfg, F, H, done):
         n_reg = 0
         for asg, cs in (cases or []):
             if all(tm.is_const(c) for c in cs):
-                continue          # |v| < eps: the conventional (X, 0) / zero
+                # |v| < eps: the conventional answer must itself rebuild (nearly) the identity: angle 0 about a unit axis, or the zero scaled axis
+                vals_ = [tm.f_of(c) for c in cs]
+                if len(vals_) == 4 and (vals_[3] != 0.0 or abs(sum(x * x for x in vals_[:3]) - 1.0) > 1e-12):
+                    bad = 'the degenerate branch returns axis %s, angle %s: expected a unit axis and the angle 0' % (vals_[:3], vals_[3])
+                elif len(vals_) == 3 and any(x != 0.0 for x in vals_):
+                    bad = 'the degenerate branch returns the scaled axis %s, expected zero' % vals_
+                if bad:
+                    break
+                continue
             alg = nf.Algebra()
             S = Spec(alg)
             unit_relation(alg, av.lanes)
@@ -397,7 +405,7 @@ def check_to_axis_angle(ctx, cfg, F, H, done):
             # the conventional (X, 0) answer may only be taken for |v| below a tiny threshold: otherwise small rotations are lost
             for c_, v_ in asg.items():
                 ks = [x for x in c_.args if isinstance(x, tm.T) and const_value(x) is not None] if c_.op in ('flt', 'fle') else []
-                if len(ks) == 1 and not (0.0 < abs(const_value(ks[0])) <= 1e-6):
+                if len(ks) == 1 and not (0.0 < abs(const_value(ks[0])) <= 1e-7):
                     bad = 'the degenerate branch is taken below %g: rotations by up to twice that angle lose their axis and angle' % const_value(ks[0])
             if bad:
                 break
@@ -545,7 +553,15 @@ def run(ctx):
                     bad = 'result / operand lanes not found'
                 else:
                     n_reg = 0
+                    # only the exact zero vector (or a length whose square underflows: <= eps^2 of the scalar type) may take the identity
+                    # shortcut: a larger threshold turns small non-zero rotations into the identity
                     for asg, ls in cases:
+                        for c_ in asg:
+                            for x_ in (c_.args if c_.op in ('flt', 'fle', 'feq', 'fne') else []):
+                                kv = const_value(x_) if isinstance(x_, tm.T) else None
+                                if kv is not None and abs(kv) > (2.0 ** -23 if const_width(x_) == 4 else 2.0 ** -52) ** 2:
+                                    bad = 'the identity shortcut is taken for |v| up to %g, not only for the zero vector' % abs(kv)
+                    for asg, ls in (cases if not bad else []):
                         if all(tm.is_const(x) for x in ls):
                             if [tm.f_of(x) for x in ls] != [0.0, 0.0, 0.0, 1.0]:
                                 bad = 'the zero-length branch is not the identity quaternion'
